@@ -1,3 +1,4 @@
 import PelGen.Live
 import PelGen.GenPeltool
 import PelGen.GenSections
+import PelGen.GenIoDrawer
